@@ -34,6 +34,7 @@ pub mod c14;
 pub mod c15;
 pub mod c16;
 pub mod c19;
+pub mod c20;
 
 /// name -> harness function, used by bin/replay
 pub fn registry() -> Vec<(&'static str, fn())> {
@@ -54,5 +55,6 @@ pub fn registry() -> Vec<(&'static str, fn())> {
 	v.extend_from_slice(c15::HARNESSES);
 	v.extend_from_slice(c19::HARNESSES);
 	v.extend_from_slice(c08::HARNESSES);
+	v.extend_from_slice(c20::HARNESSES);
 	v
 }
